@@ -101,6 +101,19 @@ class TypeChecker:
             # This struct is complete, it may be used again:
             self.got_types.remove(typ)
         elif isinstance(typ, ast.ArrayType):
+            # The size is a constant expression, give it its types:
+            if isinstance(typ.size, ast.Expression):
+                # (types inside this expression are checked on their own)
+                marks = self.got_types
+                self.check_expr(typ.size, rvalue=True)
+                self.got_types = marks
+                size_typ = self.context.get_type(typ.size.typ)
+                if not isinstance(size_typ, ast.IntegerType):
+                    raise SemanticError(
+                        f"Array size cannot be of type {size_typ}",
+                        typ.size.loc,
+                    )
+
             # An array cannot contain itself either:
             self.got_types.add(typ)
             self.check_type(typ.element_type, first=False)
